@@ -574,6 +574,7 @@ func newWorldA(p *Plan, out *Outcome, preStart func(w *worldA)) *worldA {
 		}
 		return 0
 	}
+	collect.SimOrderTraces = tieOrder(p.Seed)
 	collect.SimHeapAlloc = func(i *collect.InMemCollector, real uint64) uint64 {
 		if i != w.coll {
 			return 0
@@ -1494,9 +1495,25 @@ func runWorldAWith(t *testing.T, p *Plan, o aOpts) *Outcome {
 		w.hl.Stop()
 		collect.SimHeapAlloc = nil
 		collect.SimOutgoingQueueCap = nil
+		collect.SimOrderTraces = nil
 	})
 	if pt != "" && out.Harness == "" {
 		out.Harness = "panic/deadlock in bubble: " + pt
 	}
 	return out
+}
+
+// tieOrder: the order in which a worker sees the traces of its cache (a Go map)
+// before it sorts them by impact - and with it which of several equally heavy
+// traces is ejected first - comes from the seed.
+func tieOrder(seed uint64) func(ts []*types.Trace) {
+	return func(ts []*types.Trace) {
+		sort.Slice(ts, func(i, j int) bool {
+			hi, hj := H(seed, "tie", ts[i].TraceID), H(seed, "tie", ts[j].TraceID)
+			if hi != hj {
+				return hi < hj
+			}
+			return ts[i].TraceID < ts[j].TraceID
+		})
+	}
 }
